@@ -872,6 +872,138 @@ def comp_cases(rng, tier):
 
 
 
+# ---------------------------------------------------------------------------------------------
+# spelling family: alternative spellings of one construct, executed with OBSERVABLE branch bodies
+# (they push to a log) in statement position (value discarded, not the last statement; inside loops and function
+# bodies) and in value position, under every truth combination of the conditions.  Only behaviour is compared
+# (the ASTs legitimately differ).
+
+def _act(tag, style):
+    if style == "paren":
+        return f"log.push('{tag}')"
+    if style == "bare":
+        return f"log.push '{tag}'"
+    return f"'{tag}' -> log.push"          # pipe
+
+
+def _ind(lines, n):
+    return [" " * n + l for l in lines]
+
+
+def cascade_spellings(nconds, has_else):
+    """spellings of `if c0 A0 else if c1 A1 ... [else E]` as lists of lines"""
+    conds = [f"c{i}" for i in range(nconds)]
+    tags = [chr(65 + i) for i in range(nconds)]
+    out = {}
+    for style in ("paren", "bare", "pipe"):
+        # block cascade
+        ls = []
+        for i, (c, t) in enumerate(zip(conds, tags)):
+            ls += [("if " if i == 0 else "else if ") + c, "  " + _act(t, style)]
+        if has_else:
+            ls += ["else", "  " + _act("E", style)]
+        out[f"block-cascade/{style}"] = ls
+        # nested else / if
+        def nested(i):
+            ls = [f"if {conds[i]}", "  " + _act(tags[i], style)]
+            if i + 1 < nconds:
+                ls += ["else"] + _ind(nested(i + 1), 2)
+            elif has_else:
+                ls += ["else", "  " + _act("E", style)]
+            return ls
+        out[f"nested-else-if/{style}"] = nested(0)
+        # switch, inline and block arms
+        ls = ["switch"] + [f"  {c} then {_act(t, style)}" for c, t in zip(conds, tags)]
+        if has_else:
+            ls.append("  else " + _act("E", style))
+        out[f"switch-inline-arms/{style}"] = ls
+        ls = ["switch"]
+        for c, t in zip(conds, tags):
+            ls += [f"  {c} then", "    " + _act(t, style)]
+        if has_else:
+            ls += ["  else", "    " + _act("E", style)]
+        out[f"switch-block-arms/{style}"] = ls
+    # single-line nested inline ifs (parenthesised calls: a bare call would swallow the `else`)
+    def inline(i):
+        s = f"if {conds[i]} then {_act(tags[i], 'paren')}"
+        if i + 1 < nconds:
+            s += f" else ({inline(i + 1)})"
+        elif has_else:
+            s += f" else {_act('E', 'paren')}"
+        return s
+    out["inline-nested/paren"] = [inline(0)]
+    # the bodies as calls of one-line / multi-line functions
+    ls = []
+    for i, (c, t) in enumerate(zip(conds, tags)):
+        ls += [("if " if i == 0 else "else if ") + c, f"  act{'1' if i % 2 else '2'}('{t}')"]
+    if has_else:
+        ls += ["else", "  act1 'E'"]
+    out["block-cascade/function-bodies"] = ls
+    return out
+
+
+def match_spellings(has_else):
+    out = {}
+    for style in ("paren", "bare", "pipe"):
+        ls = ["match v"] + [f"  {k} then {_act(chr(65 + k), style)}" for k in range(2)]
+        if has_else:
+            ls.append("  else " + _act("E", style))
+        out[f"match-inline-arms/{style}"] = ls
+        ls = ["match v"]
+        for k in range(2):
+            ls += [f"  {k} then", "    " + _act(chr(65 + k), style)]
+        if has_else:
+            ls += ["  else", "    " + _act("E", style)]
+        out[f"match-block-arms/{style}"] = ls
+    if has_else:
+        out["if-cascade/paren"] = ["if v == 0", "  log.push('A')", "else if v == 1", "  log.push('B')", "else", "  log.push('E')"]
+        out["switch/paren"] = ["switch", "  v == 0 then log.push('A')", "  v == 1 then log.push('B')", "  else log.push('E')"]
+    return out
+
+
+SPELL_CONTEXTS = ["top", "for", "while", "fn", "fn-nested-loop", "value"]
+
+
+def spell_program(setup, body, context):
+    head = ["log = []", "act1 = |t| log.push t", "act2 = |t|", "  x = t", "  log.push x"] + setup
+    if context == "top":
+        mid = body + ["log.push 'end'"]
+    elif context == "for":
+        mid = ["for i in 0..2"] + _ind(body + ["log.push i"], 2)
+    elif context == "while":
+        mid = ["n = 0", "while n < 2"] + _ind(body + ["n += 1", "log.push n"], 2)
+    elif context == "fn":
+        mid = ["f = ||"] + _ind(body + ["log.push 'end'", "0"], 2) + ["f()", "log.push 'after'"]
+    elif context == "fn-nested-loop":
+        mid = ["f = |k|"] + _ind(["for i in 0..k"] + _ind(body + ["log.push i"], 2) + ["k"], 2) + ["f 2", "log.push 'after'"]
+    else:   # value position: the construct is the last expression of a function whose result is used
+        mid = ["f = ||"] + _ind(["log.push 'start'"] + body, 2) + ["r = f()", "log.push 'after'"]
+    return "\n".join(head + mid + ["print log"]) + "\n"
+
+
+def spelling_groups(rng, tier):
+    """[(description, [(spelling name, source)])]: all sources of a group must behave identically"""
+    import itertools
+    groups = []
+    for nconds in (2, 3):
+        for has_else in (False, True):
+            sp = cascade_spellings(nconds, has_else)
+            for truth in itertools.product([True, False], repeat=nconds):
+                setup = [f"c{i} = {'true' if t else 'false'}" for i, t in enumerate(truth)]
+                ctxs = SPELL_CONTEXTS if tier != "quick" or nconds == 2 else [rng.choice(SPELL_CONTEXTS[:5]), "top"]
+                for ctx in ctxs:
+                    groups.append((f"cascade n={nconds} else={has_else} truth={truth} context={ctx}",
+                                   [(name, spell_program(setup, body, ctx)) for name, body in sp.items()]))
+    for has_else in (False, True):
+        sp = match_spellings(has_else)
+        for v in range(3):
+            for ctx in SPELL_CONTEXTS:
+                groups.append((f"match else={has_else} v={v} context={ctx}",
+                               [(name, spell_program([f"v = {v}"], body, ctx)) for name, body in sp.items()]))
+    return groups
+
+
+
 def corpus_cases():
     out = []
     d = os.path.join(C.VERIF, "corpus", PID)
@@ -1034,6 +1166,11 @@ def run(tier, seed):
         add({"mode": "prog", "src": cc["ref"], "run": True}, {"kind": "composition", "role": "ref", "c": cc})
         add({"mode": "prog", "src": cc["src"], "run": True}, {"kind": "composition", "role": "layout", "c": cc})
 
+    for gi, (desc, variants) in enumerate(spelling_groups(rng, tier)):
+        for vi, (name, src) in enumerate(variants):
+            add({"mode": "prog", "src": src, "run": True},
+                {"kind": "spelling", "group": gi, "first": vi == 0, "desc": desc, "name": name, "ref_name": variants[0][0]})
+
     progs = []
     for pi in range(nprog):
         prog = gen_program(rng, 3 + rng.below(6))
@@ -1093,6 +1230,7 @@ def run(tier, seed):
     used_hist = {}
     comp_hist = {}
     comp_ref_fail = set()
+    spell_ref = None
     canon_fail = 0
     for i, (c, m, r) in enumerate(zip(cases, meta, res)):
         src = c["src"]
@@ -1158,6 +1296,30 @@ def run(tier, seed):
             if ie != (m["c"]["expect"] == "indent"):
                 fails.append((len(src), "prefix", {"src": src, "impl_says": r, "predicate_failed":
                                                    f"corpus prefix: expected {m['c']['expect']}"}))
+        elif k == "spelling":
+            chk.count_case(src, True)
+            if m["first"]:
+                spell_ref = (i, r)
+                if not r.get("ok"):
+                    fails.append((len(src), "spelling", {"src": src, "impl_says": r, "predicate_failed":
+                                                         f"reference spelling {m['name']} does not compile ({m['desc']})"}))
+                continue
+            ri, a = spell_ref
+            if not a.get("ok"):
+                continue
+            what = None
+            if not r.get("ok"):
+                what = f"spelling {m['name']} does not compile ({r.get('err_kind')}) while {m['ref_name']} does"
+            elif (r.get("result"), r.get("out")) != (a.get("result"), a.get("out")):
+                what = (f"spelling {m['name']} behaves differently from {m['ref_name']}: {r.get('result')!r}/{r.get('out')!r} vs "
+                        f"{a.get('result')!r}/{a.get('out')!r}")
+            if what:
+                fails.append((len(src), "spelling", {
+                    "src": src, "canonical_src": cases[ri]["src"], "behaviour_only": True,
+                    "freedoms_used": [m["desc"], m["name"], "vs " + m["ref_name"]],
+                    "impl_says": {kk: r.get(kk) for kk in ("ok", "err_kind", "err_line", "result", "out")},
+                    "canonical_says": {kk: a.get(kk) for kk in ("ok", "result", "out")},
+                    "predicate_failed": what}))
         elif k == "composition" and m["role"] == "layout":
             a = res[i - 1]
             cc = m["c"]
@@ -1298,7 +1460,10 @@ def replay(path, args):
         print(json.dumps({k: r.get(k) for k in ("ok", "indent_err", "err_kind", "err_line", "result", "out")}))
     bad = False
     pf = data.get("predicate_failed", "")
-    if len(res) == 2:
+    if len(res) == 2 and data.get("behaviour_only"):
+        a, b = res
+        bad = a.get("ok") != b.get("ok") or (a.get("result"), a.get("out")) != (b.get("result"), b.get("out"))
+    elif len(res) == 2:
         a, b = res
         bad = a.get("ok") != b.get("ok") or (a.get("ok") and (a["loose"], a.get("result"), a.get("out")) != (b["loose"], b.get("result"), b.get("out")))
     elif "not an indentation error" in pf:
